@@ -1526,10 +1526,8 @@ CK_RV SoftHSM::C_Login(CK_SESSION_HANDLE hSession, CK_USER_TYPE userType, CK_UTF
 	{
 		case CKU_SO:
 			// There cannot exist a R/O session on this slot
-			if (sessionManager->haveROSession(session->getSlot()->getSlotID())) return CKR_SESSION_READ_ONLY_EXISTS;
-
-			// Login
-			rv = token->loginSO(pin);
+			// (checked together with the login, see SessionManager::loginSO)
+			rv = sessionManager->loginSO(session->getSlot(), pin);
 			break;
 		case CKU_USER:
 			// Login
